@@ -51,7 +51,8 @@ func genC09Op(t *rapid.T) C09Op {
 		switch k {
 		case "add", "update":
 			op.Key = rapid.SampledFrom(c09Keys).Draw(t, "key")
-			op.Fill = rapid.SampledFrom([]string{"x", "y", "z"}).Draw(t, "fill")
+			// (multi-byte fills: the lengths the cache counts are bytes, not characters)
+			op.Fill = []string{"x", "y", "z", "x", "y", "é", "日本", "\xff"}[uniformN(t, 8, "fill")]
 			if rapid.IntRange(0, 5).Draw(t, "lenfree") == 0 {
 				op.Len = rapid.IntRange(0, 70000).Draw(t, "lenv")
 			} else {
